@@ -74,7 +74,7 @@ class Program:
                     continue
                 if f.impl_at:
                     path, line, col = f.impl_at.rsplit(":", 2)
-                    if not os.path.isabs(path): path = os.path.join(build.REPO, path)
+                    if not os.path.isabs(path): path = os.path.join(getattr(self, "base_dirs", {}).get(c, build.REPO), path)
                     trait, selfty = rtypes.impl_header_at(path, int(line))
                     meth = last
                     if trait == "derive" or selfty is None:
@@ -93,8 +93,8 @@ class Program:
     def _repair_closure_aggregates(self):
         """`-Zunpretty=mir` prints a closure aggregate by zipping the captured *variable names* with the operands; with
         edition-2021 disjoint captures (two captures of one variable) the zip is short and the trailing operands are not
-        printed.  The dropped operands are always reference temporaries assigned just before the aggregate and used nowhere
-        else; they are recovered here (and the run is refused if that is not possible)."""
+        printed.  The dropped operands are always temporaries (a fresh reference, or a copied reference field of a captured
+        struct) assigned just before the aggregate and used nowhere else; they are recovered here (and the run is refused if that is not possible)."""
         self.closure_arity = {}
         for loc, f in self.closures.items():
             n = 0
@@ -119,7 +119,7 @@ class Program:
                             if uses is None: uses = _use_counts(f)
                             cand = []
                             for prev in stmts[:i]:
-                                if prev[0] == "assign" and not prev[1][1] and prev[2][0] == "ref" and uses.get(prev[1][0], 0) == 0:
+                                if prev[0] == "assign" and not prev[1][1] and prev[2][0] in ("ref", "use") and uses.get(prev[1][0], 0) == 0:
                                     cand.append(prev[1][0])
                             need = want - len(caps)
                             if len(cand) < need:
@@ -218,6 +218,15 @@ class Program:
         if td is None or td.kind != "enum":
             raise Unsupported(f"unknown enum {ty}")
         return td.variant_index(variant)
+
+    def variant_discr(self, ty, variant, cur_crate=None):
+        """the value MIR's discriminant() yields for a variant (declared `= N` values are honoured)"""
+        sn = simple_name(ty)
+        if sn in rtypes.TypeDB.BUILTIN: return rtypes.TypeDB.BUILTIN[sn].index(variant)
+        td = self.types.lookup(ty, cur_crate or self.crate)
+        if td is None or td.kind != "enum":
+            raise Unsupported(f"unknown enum {ty}")
+        return td.variants[td.variant_index(variant)].discr
 
     def func_hash(self, f):
         h = hashlib.sha256(repr((f.params, f.ret, sorted(f.blocks.items()))).encode()).hexdigest()[:12]
